@@ -273,6 +273,28 @@ pub fn eval(c: &Case) -> (Vec<Finding>, String) {
             m.retain(|(k, _)| int_key(k) != Some(key));
             (Some(false), format!("required member {key} removed"))
         }
+        // integer keys beyond one byte whose low byte is an assigned key: "wide:<key>:<shift>" adds
+        // the entry (value of the member it aliases) to the complete message – accepted only if the
+        // message is unchanged; "widereplace:<key>:<shift>" moves a required member to the wide key
+        // – the member is then missing
+        "wide" | "widereplace" => {
+            let key: i128 = parts[1].parse().unwrap_or(0);
+            let shift: u32 = parts[2].parse().unwrap_or(8);
+            let wide = key + (1i128 << shift);
+            let val = m.iter().find(|(k, _)| int_key(k) == Some(key)).map(|(_, v)| v.clone()).unwrap_or(Cbor::Map(vec![(Cbor::Text("up".into()), Cbor::Bool(false)), (Cbor::Text("uv".into()), Cbor::Bool(true))]));
+            if parts[0] == "widereplace" {
+                m.retain(|(k, _)| int_key(k) != Some(key));
+                m.push((Cbor::Integer((wide as u64).into()), val));
+                (Some(false), format!("required member {key} moved to key {wide}"))
+            } else {
+                let alt = match &val {
+                    Cbor::Map(_) => Cbor::Map(vec![(Cbor::Text("up".into()), Cbor::Bool(false)), (Cbor::Text("uv".into()), Cbor::Bool(true)), (Cbor::Text("rk".into()), Cbor::Bool(true))]),
+                    other => other.clone(),
+                };
+                m.push((Cbor::Integer((wide as u64).into()), alt));
+                (Some(true), format!("key {wide} (low byte {key}) added"))
+            }
+        }
         "dup" => {
             let key: i128 = parts[1].parse().unwrap_or(0);
             if let Some(e) = m.iter().find(|(k, _)| int_key(k) == Some(key)).cloned() {
@@ -303,6 +325,8 @@ pub fn eval(c: &Case) -> (Vec<Finding>, String) {
                 bad("unknown-key-changes-message", format!("{what}: message differs"));
             }
         }
+        // keys beyond 0..255 are outside the statement: rejecting the message is as good as ignoring the key
+        (Ok(Err(_)), Some(true)) if parts[0] == "wide" => {}
         (Ok(Err(e)), Some(true)) => bad("unknown-key-rejected", format!("{what}: {e}")),
         (Ok(Ok(_)), Some(false)) => bad(if parts[0] == "dup" { "duplicate-member-accepted" } else { "missing-required-member-accepted" }, what),
         (Ok(Err(_)), Some(false)) => {}
@@ -350,6 +374,14 @@ pub fn cases(tier: Tier) -> Vec<Case> {
                         }
                     }
                     for (_, k, req) in &table {
+                        for shift in [8u32, 16, 32] {
+                            if present(*k) {
+                                v.push(mk(format!("wide:{k}:{shift}")));
+                            }
+                            if *req {
+                                v.push(mk(format!("widereplace:{k}:{shift}")));
+                            }
+                        }
                         if *req {
                             v.push(mk(format!("remove:{k}")));
                         }
@@ -429,7 +461,7 @@ pub fn run(ctx: &Ctx) -> Result<Run, String> {
     }
     let mut run = Run::from_stats(
         "exploration",
-        "for each of the six CTAP2 message types: all presence patterns of the optional members x 4 nested-value variants (one with repeated entries in every list, one with every nested optional structure and list present but empty; plus a variant with byte-string members of more than 4 KiB), serialised with ciborium and inspected as a generic CBOR value (one map spanning all serialised bytes; keys = the specification's integers for the present members, ascending, no nulls), round-tripped; mutations of the encodings: every integer key 0..255 not assigned to a member inserted (every position for the full pattern, at the end otherwise; all positions in thorough) with int/map/bytes values, unknown text keys at every position, each required member removed, each present member duplicated, options omitted / empty; all 256 status bytes converted both ways and injected as lookup failure under Client::authenticate. Every case is distinct",
+        "for each of the six CTAP2 message types: all presence patterns of the optional members x 4 nested-value variants (one with repeated entries in every list, one with every nested optional structure and list present but empty; plus a variant with byte-string members of more than 4 KiB), serialised with ciborium and inspected as a generic CBOR value (one map spanning all serialised bytes; keys = the specification's integers for the present members, ascending, no nulls), round-tripped; mutations of the encodings: every integer key 0..255 not assigned to a member inserted (every position for the full pattern, at the end otherwise; all positions in thorough) with int/map/bytes values, unknown text keys at every position, each required member removed or moved to a key of 2, 3 or 5 bytes with the same low byte (must be an error), each present member repeated under such a wide key with another value (ignored or rejected, never taken), each present member duplicated, options omitted / empty; all 256 status bytes converted both ways and injected as lookup failure under Client::authenticate. Every case is distinct",
         true,
         stats,
     );
